@@ -284,6 +284,9 @@ func init() {
 		fail.assume(And(Ge(nf, IntT(0)), Le(nf, StrLen(oldc))))
 		n := x.fresh(st, "nread", SInt)
 		st.assume(And(Ge(n, IntT(0)), Le(n, StrLen(oldc))))
+		// ghost: a buffer that was filled completely holds bytes that came from the reader (spec: fromReader)
+		x.ufun("fromReader", []string{SStr}, SBool)
+		st.assume(Implies(Eq(n, StrLen(oldc)), app("fromReader", SBool, x.bytesContent(st, buf.T))))
 		return []Outcome{{St: st, Res: []Val{intV(n), nilErr()}}, {St: fail, Res: []Val{intV(nf), fe}}}
 	})
 }
